@@ -555,6 +555,8 @@ type searchFamily struct {
 	File   string `json:"file"`   // template under /verif/replay/
 	Run    string `json:"run"`    // -run pattern
 	Inject string `json:"inject"` // file name to inject into the package
+	// thorough-tier sweep only: run this harness under these properties only (empty: under every property with a matching obligation)
+	Props []string `json:"props,omitempty"`
 }
 
 func runSearchHarness(oblID string) (bool, map[string]interface{}) {
@@ -566,6 +568,8 @@ func runSearchHarness(oblID string) (bool, map[string]interface{}) {
 	if json.Unmarshal(b, &fams) != nil {
 		return false, nil
 	}
+	var last map[string]interface{}
+	tried := 0
 	for _, fam := range fams {
 		re, err := regexp.Compile(fam.Match)
 		if err != nil || !re.MatchString(oblID) {
@@ -575,15 +579,42 @@ func runSearchHarness(oblID string) (bool, map[string]interface{}) {
 		if err != nil {
 			continue
 		}
+		if tried++; tried > 3 {
+			break
+		}
 		out, _ := runGoTest(fam.Pkg, fam.Inject, string(src), fam.Run)
 		detail := map[string]interface{}{"harness": fam.Pkg + "/" + fam.Inject + " (bounded concrete search, injected with go test -overlay from /verif/replay/" + fam.File + ")",
 			"harness_pkg": fam.Pkg, "harness_file": fam.Inject, "harness_source": string(src), "harness_run": fam.Run, "search_output": tailStr(out, 2000)}
 		if strings.Contains(out, "CONFIRMED:") {
-			detail["failing_input"] = extractLine(out, "CONFIRMED:")
+			line := extractLine(out, "CONFIRMED:")
+			if harnessLineIsKnown(fam.Run, line) {
+				// the harness stopped at an OPEN known finding (present on the unchanged tree too): not a replay of this obligation
+				detail["note"] = "the harness stops at an open known finding (" + line + "); not counted as a replay of this obligation"
+				last = detail
+				continue
+			}
+			detail["failing_input"] = line
 			detail["found_by"] = "bounded concrete search on the real code (the obligation's model lives in ghost/heap abstractions)"
 			return true, detail
 		}
-		return false, detail
+		// no counterexample in this family's harness: a later family whose pattern also matches may still have one
+		last = detail
 	}
-	return false, nil
+	return false, last
+}
+
+// harnessLineIsKnown: is this CONFIRMED line of harness run the witness of an open known finding (any property)?
+func harnessLineIsKnown(run, line string) bool {
+	for _, k := range loadKnown() {
+		if k.Status != "open" || k.WitnessMatch == "" {
+			continue
+		}
+		if re, err := regexp.Compile("^(?:" + k.Obligation + ")$"); err != nil || !re.MatchString("harness:"+run) {
+			continue
+		}
+		if re, err := regexp.Compile(k.WitnessMatch); err == nil && re.MatchString(line) {
+			return true
+		}
+	}
+	return false
 }
